@@ -235,8 +235,8 @@ impl RoutingThread {
                     .unwrap();
             }
             Message::Block(_) => {
-                error!("received block message");
-                unreachable!();
+                // blocks are announced by their header hash and fetched, never pushed as messages
+                warn!("ignoring block message from peer : {:?}", peer_index);
             }
         }
     }
